@@ -92,6 +92,8 @@ def run(ctx, rep):
         rep.check(x == [0xffffffff, 0xffffffff], 'R-C16-3', '%s: IV and final xor 0xffffffff' % name, f.file, str([hex(v) for v in x]), function=name, construct='iv')
     C02.check_mode_order(ctx, rep, 'R-C16-5')
     C02.mode_selection_rule(ctx, rep, 'R-C16-5m')
+    from .C04 import rehash_pairing_rule
+    rehash_pairing_rule(ctx.prog, rep, 'R-C16-4p')
     # R-C16-4 hash schedule
     rep.rule('R-C16-4', 'hash schedule (multiply/add/xor magic constants, rotation amounts, at -O1) equals the reference schedule', 3)
     rep.rule('R-C16-4g', 'hash multiplier globals are never written', 1)
